@@ -340,7 +340,7 @@ namespace smt
         {
             const auto [lb, ub] = distance(l0.vars.cbegin()->first, l1.vars.cbegin()->first);
             const auto kt = l0.known_term - l1.known_term;
-            return lb + kt <= 0 && ub + kt >= 0;
+            return lb <= kt && ub >= kt; // l0 == l1 iff x1 - x0 == k0 - k1..
         }
         else
             throw std::invalid_argument("not a valid comparison between real difference logic expressions..");
